@@ -1,0 +1,11 @@
+//go:build verif
+
+// Contracts for package weights (machine-checked by /verif/engine; comment-only file).
+package weights
+
+// The sibling comparator of the weights tree (C06): siblings have distinct segments, so the row order
+// is a function of the report alone iff a tie between two siblings implies equal segments.
+// (float64 weights are treated as reals - listed assumption.)
+//@ func (*Report).SortWeighted$2
+//@   requires n1 != nil && n2 != nil
+//@   ensures [C06] @tie: result == 0 ==> n1.Segment == n2.Segment
